@@ -39,6 +39,10 @@ SortByBegin(S) ==     \* S: set of slits
     ELSE LET m == CHOOSE x \in S : \A y \in S : x[1] < y[1] \/ (x[1] = y[1] /\ x[2] <= y[2])
          IN <<m>> \o SortByBegin(S \ {m})
 
+(* `sl` is the slit set IN THE ORDER THE CALLER LISTED IT ("the order is arbitrary but must     *)
+(* match the order of slit_end").  bug = "wraplisted": the wrap-around comparison is made on   *)
+(* the listed instead of the sorted slits (every listed end but the first, one turn back,      *)
+(* against the first listed begin) - right only when the caller happens to list by begin.      *)
 ProcValid(sl, K, bug) ==
     LET S == { sl[i] : i \in 1..Len(sl) }
         s == SortByBegin(S)
@@ -46,7 +50,15 @@ ProcValid(sl, K, bug) ==
     IN  /\ n = Len(sl)                                   \* no slit listed twice
         /\ \A i \in 1..n : s[i][1] <= s[i][2]
         /\ \A i \in 1..(n-1) : s[i+1][1] > s[i][2]
-        /\ (bug = "nowrap" \/ n <= 1 \/ s[n][2] - K < s[1][1])
+        /\ IF bug = "wraplisted" THEN \A i \in 2..n : sl[i][2] - K < sl[1][1]
+           ELSE (bug = "nowrap" \/ n <= 1 \/ s[n][2] - K < s[1][1])
+
+(* listing orders: all of them for up to 3 slits, reversal / rotation / one swap beyond        *)
+Orders(n) ==
+    IF n <= 3 THEN { q \in [1..n -> 1..n] : \A i, j \in 1..n : i # j => q[i] # q[j] }
+    ELSE { [i \in 1..n |-> i], [i \in 1..n |-> n + 1 - i], [i \in 1..n |-> (i % n) + 1],
+           [i \in 1..n |-> IF i = 1 THEN 2 ELSE IF i = 2 THEN 1 ELSE i] }
+Listed(sl, q) == [ i \in 1..Len(sl) |-> sl[q[i]] ]
 
 (* ---- frequency ratio num/den: integer multiple or divisor of the pulse frequency        *)
 InPhaseDecl(num, den) == \E n \in 1..(num + den) : num = n * den \/ den = n * num
